@@ -1,5 +1,156 @@
-"""Self-validation of the checker (DESIGN.md section 8); filled in later."""
+"""Self-validation of the checker (DESIGN.md section 8).
+
+Applies each corpus edit to a scratch copy of the *current* /repo package
+(mkdtemp outside /repo and /verif, removed immediately), runs the property's
+quick rules on it in a subprocess and compares with the expectation:
+
+  mutant -> exit 1 (and, when given, the report mentions ``expect_text``)
+  twin   -> exit 0
+
+A missed mutant or a noisy twin is a *checker* defect: it is recorded in the
+evidence (``self_validation``) and never turned into a VIOLATION against /repo.
+Edits whose anchor text is absent on the current tree are skipped and counted.
+"""
+from __future__ import annotations
+
+import concurrent.futures as cf
+import os
+import shutil
+import subprocess
+import sys
+import tempfile
+from typing import Dict, List, Optional
+
+from ..model import repo_root
+from . import edits
+
+VERIF = os.path.dirname(os.path.dirname(os.path.dirname(os.path.abspath(__file__))))
 
 
-def run_for(prop, seed):
-    return {"status": "corpus not built yet"}
+def _apply(root: str, edit) -> Optional[str]:
+    """apply edit to scratch ``root``; returns None on success or a reason."""
+    for step in edit["steps"]:
+        path = os.path.join(root, step["file"])
+        if not os.path.exists(path):
+            return f"file {step['file']} absent"
+        with open(path, encoding="utf-8") as fh:
+            src = fh.read()
+        old, new = step["old"], step["new"]
+        n = src.count(old)
+        want = step.get("count", 1)
+        if n < 1 or (want != "all" and n != want and step.get("nth") is None):
+            return f"anchor occurs {n}x (expected {want}) in {step['file']}"
+        if step.get("nth") is not None:
+            idx = -1
+            for _ in range(step["nth"] + 1):
+                idx = src.find(old, idx + 1)
+                if idx < 0:
+                    return "nth occurrence absent"
+            src = src[:idx] + new + src[idx + len(old):]
+        else:
+            src = src.replace(old, new)
+        with open(path, "w", encoding="utf-8") as fh:
+            fh.write(src)
+    return None
+
+
+def run_one(edit, prop: str) -> Dict:
+    src_root = repo_root()
+    tmp = tempfile.mkdtemp(prefix="pbstatic-scratch-")
+    try:
+        shutil.copytree(os.path.join(src_root, "pybads"), os.path.join(tmp, "pybads"), ignore=shutil.ignore_patterns("__pycache__", "testing"))
+        why = _apply(tmp, edit)
+        if why:
+            return {"id": edit["id"], "prop": prop, "status": "skipped", "why": why}
+        # the edit must still compile
+        for step in edit["steps"]:
+            try:
+                compile(open(os.path.join(tmp, step["file"]), encoding="utf-8").read(), step["file"], "exec")
+            except SyntaxError as e:
+                return {"id": edit["id"], "prop": prop, "status": "skipped", "why": f"edit does not compile: {e}"}
+        env = dict(os.environ, PBSTATIC_REPO=tmp, PBSTATIC_SCRATCH="1")
+        r = subprocess.run([sys.executable, "-m", "pbstatic.run", prop, "--tier", "quick"], cwd=VERIF, env=env, capture_output=True, text=True, timeout=300)
+        out = r.stdout
+        kind = edit["kind"]
+        if kind == "mutant":
+            ok = r.returncode == 1 and (edit.get("expect_text") is None or edit["expect_text"] in out)
+        else:
+            ok = r.returncode == 0
+        res = {"id": edit["id"], "prop": prop, "kind": kind, "status": "ok" if ok else "MISMATCH", "rc": r.returncode}
+        if not ok:
+            res["output_tail"] = out[-1500:]
+        else:
+            res["reported"] = [l for l in out.splitlines() if l.startswith("[" + prop)][:2]
+        return res
+    finally:
+        shutil.rmtree(tmp, ignore_errors=True)
+
+
+def run_many(pairs: List, jobs: int = 16) -> List[Dict]:
+    with cf.ThreadPoolExecutor(max_workers=jobs) as ex:
+        futs = [ex.submit(run_one, e, p) for e, p in pairs]
+        return [f.result() for f in futs]
+
+
+def summarise(results: List[Dict]) -> Dict:
+    mut = [r for r in results if r.get("kind") == "mutant"]
+    tw = [r for r in results if r.get("kind") == "twin"]
+    return {
+        "corpus_mutants_total": len(mut),
+        "corpus_mutants_detected": sum(r["status"] == "ok" for r in mut),
+        "twins_total": len(tw),
+        "twins_silent": sum(r["status"] == "ok" for r in tw),
+        "skipped": [f"{r['id']}: {r['why']}" for r in results if r["status"] == "skipped"],
+        "missed_mutants": [r["id"] for r in mut if r["status"] != "ok"],
+        "noisy_twins": [r["id"] for r in tw if r["status"] != "ok"],
+        "sample_detections": [f"{r['id']}: {r['reported'][0][:160]}" for r in mut if r["status"] == "ok" and r.get("reported")][:5],
+    }
+
+
+def run_for(prop: str, seed: int = 0) -> Dict:
+    pairs = [(e, prop) for e in edits.ALL if prop in e["props"]]
+    if seed:
+        import random
+
+        random.Random(seed).shuffle(pairs)
+    res = run_many(pairs)
+    return summarise(res)
+
+
+def main(argv=None):
+    import argparse
+    import json
+
+    ap = argparse.ArgumentParser()
+    ap.add_argument("props", nargs="*")
+    ap.add_argument("--id")
+    ap.add_argument("-v", action="store_true")
+    a = ap.parse_args(argv)
+    pairs = []
+    for e in edits.ALL:
+        if a.id and a.id not in e["id"]:
+            continue
+        for p in e["props"]:
+            if a.props and p not in a.props:
+                continue
+            pairs.append((e, p))
+    res = run_many(pairs)
+    bad = 0
+    for r in sorted(res, key=lambda r: (r["prop"], r["id"])):
+        flag = {"ok": "ok  ", "MISMATCH": "MISS", "skipped": "skip"}[r["status"]]
+        line = f"{flag} {r['prop']} {r.get('kind','?'):6} {r['id']}"
+        if r["status"] == "skipped":
+            line += "  (" + r["why"] + ")"
+        print(line)
+        if r["status"] == "MISMATCH":
+            bad += 1
+            if a.v:
+                print(r.get("output_tail", ""))
+        elif a.v and r.get("reported"):
+            print("     ", r["reported"][0][:200])
+    print(json.dumps(summarise(res), indent=1)[:3000])
+    return 1 if bad else 0
+
+
+if __name__ == "__main__":
+    sys.exit(main())
